@@ -1,19 +1,22 @@
 import json
 import vf
 
-HARNESS = dict(pkg_dir="index", run="TestVerifC01$", files=["index/zz_verif_c01_test.go"], n_quick=220, n_thorough=4000)
+HARNESS = dict(pkg_dir="index", run="TestVerifC01$", files=["index/zz_verif_c01_test.go"], n_quick=200, n_thorough=4000)
 RUNNER = dict(imports=["From ZV Require Import Lib.Base Model.SearchCore."], case_type="c01case", shard=200)
 RULE = ("random corpora (1-3 repositories in simple / compound shards, 1-10 documents over a small token alphabet with forced "
         "repeats and overlaps, multi-byte runes, texts crossing the 100-rune sampling boundary, empty and < 3 rune files, skipped "
-        "documents, repository and file tombstones) written with the real ShardBuilder and read back with NewSearcher, x query "
-        "trees of depth <= 4 over all modelled atom kinds (patterns are substrings of real texts, case-flipped, boundary-straddling "
+        "documents, repository and file tombstones, 0-5 sorted symbol sections per document via Document.Symbols: adjacent, at offset 0, up to the end, "
+        "inside multi-byte runs, rarely empty) written with the real ShardBuilder and read back with NewSearcher, x query "
+        "trees of depth <= 4 over all modelled atom kinds incl. Symbol{Substring} / Symbol{Regexp} (14 % of the atoms; patterns = a section text, inside "
+        "one, straddling / just outside a section boundary) (patterns are substrings of real texts, case-flipped, boundary-straddling "
         "or noise); non-trivial = the query selects a proper non-empty subset of the documents.")
 TRUSTED = ["correspondence harness harness/overlay/index/zz_verif_c01_test.go (generator, read-back of the index, serialiser, Go oracle)",
            "texts modelled as rune lists: byte-level operations of the code on valid UTF-8 are taken to coincide with the rune-level model",
            "regexp engine, unicode.ToLower and unicode.SimpleFold are external (Section variables; tables recorded from Go in the run)",
            "posting lists at the level of sorted position lists (their byte coding is C09; only the byte SIZE of the delta-varint coding is modelled, for the trigram frequencies); nextFileIndex's galloping search as a linear scan",
+           "symbol sections: the shard stores byte offsets, the model rune offsets - converted by the harness after reading the sections back from the shard; the symbol nodes' borrowed docIterator is abstracted in the model (prefilter clause of re_okb checked per case)",
            "internal observable through the overlay: per substring atom (leftPad, rightPad, distance, freq=0) of the implementation's match tree is compared with the model's trigram selection"]
-ASSUME = ["documents are valid UTF-8", "total runes + pattern length < 2^32",
+ASSUME = ["documents are valid UTF-8", "symbol sections sorted, non-overlapping, inside the content (enforced by ShardBuilder.Add; checked per case)", "total runes + pattern length < 2^32",
           "case-insensitive atoms: lower-casing and simple folding agree on the runes involved (otherwise C08)"]
 
 
